@@ -551,6 +551,12 @@ def unmodelled_impls(repo, report, stated):
     none: a patch ADDED the impl).  What `clone()` returns and what `==` says is C10's subject, and a derived impl is the identity /
     the field-wise comparison by construction; a hand-written one is a function like any other, and here it has neither a
     translation nor a model counterpart: recorded as `unmodelled` (check.py: a broken obligation of C10; the sweep: not silent)."""
+    try:        # a function that has a theorem on the pinned tree and none now has LEFT the fragment: reported as such, not here
+        pinned = set(json.load(open(os.path.join(os.path.dirname(os.path.dirname(os.path.abspath(__file__))), "pinned_src",
+                                                 "EXPECTED.json")))["theorems"])
+    except Exception:
+        pinned = set()
+    stated = set(stated) | pinned
     files = {}
     for u, r in list(report.items()):
         if isinstance(r, dict) and r.get("file") and str(r["file"]).endswith(".rs"):
